@@ -20,7 +20,8 @@ type wtTotCase struct {
 	failAt  int    // read call index that fails (-1 none)
 	rb      int
 	chunk   int
-	api     string // Read5 | Read1 | ReadMessage
+	api     string // Read5 | Read1 | Read8K | ReadMessage
+	eofWith bool   // the stream returns its last bytes together with EOF
 }
 
 func (k wtTotCase) String() string {
@@ -29,7 +30,7 @@ func (k wtTotCase) String() string {
 	if len(s) > 24 {
 		pre = fmt.Sprintf("%x…(%d bytes)", s[:24], len(s))
 	}
-	return fmt.Sprintf("stream=%s limit=%d consume=%s failAt=%d rb=%d chunk=%d api=%s", pre, k.limit, k.consume, k.failAt, k.rb, k.chunk, k.api)
+	return fmt.Sprintf("stream=%s limit=%d consume=%s failAt=%d rb=%d chunk=%d api=%s eof-with-data=%v", pre, k.limit, k.consume, k.failAt, k.rb, k.chunk, k.api, k.eofWith)
 }
 
 func isUnexpectedEnd(err error) bool {
@@ -58,6 +59,7 @@ func wtTotality(k wtTotCase) (fails []string, outcome string) {
 	ref := wtDecode(k.stream)
 	fs := newFakeStream(k.stream)
 	fs.failAt, fs.failErr, fs.chunk = k.failAt, errInjected, k.chunk
+	fs.eofWithData = k.eofWith
 	sess := newFakeSession()
 	c := wt.NewConn(sess.S, fs, true, k.rb, 0, nil, nil, nil)
 	c.SetReadLimit(k.limit)
@@ -131,6 +133,9 @@ func wtTotality(k wtTotCase) (fails []string, outcome string) {
 			sz := 5
 			if k.api == "Read1" {
 				sz = 1
+			}
+			if k.api == "Read8K" {
+				sz = 8192
 			}
 			buf := make([]byte, sz)
 			for want < 0 || len(got) < want {
@@ -388,6 +393,31 @@ func registerC15() {
 		for _, cut := range []int{1, 2, 8, 9, 10, 100, 65535 + 9, 65536 + 9} {
 			distinct++
 			n += runGroup(c, fmt.Sprintf("truncation 64KiB-frame cut=%d", cut), big[:cut], []int64{0, 65536, 65535}, false, outcomes)
+		}
+		// large frames cut beyond the first fill of the read buffer, the stream handing over its last
+		// bytes together with EOF, consumers with large buffers
+		for _, ln := range []int{5000, 9000, 40000} {
+			for _, bin := range []bool{false, true} {
+				full := wtEncode(wtMsg{bin, wtPayload(ln, bin)}, 0)
+				for _, cut := range []int{4090, 4096, 4099, 4100, 4500, 8200, 33000, len(full) - 1, len(full)} {
+					if cut > len(full) {
+						continue
+					}
+					for _, ew := range []bool{false, true} {
+						for _, api := range []string{"ReadMessage", "Read8K", "Read5"} {
+							distinct++
+							k := wtTotCase{stream: full[:cut], consume: "all", failAt: -1, api: api, eofWith: ew}
+							id := fmt.Sprintf("big truncation len=%d bin=%v cut=%d api=%s eof-with-data=%v", ln, bin, cut, api, ew)
+							c.Case(id, func() []string {
+								n++
+								f, o := wtTotality(k)
+								outcomes[o]++
+								return f
+							})
+						}
+					}
+				}
+			}
 		}
 		finish(c, distinct, n, outcomes)
 		c.Sample("truncation stream#3 cut=2/4")
